@@ -23,7 +23,10 @@ RuleTexts == {R_noc, R_all, R_bad}
 
 MCInit ==
   /\ cfg = [maxNames |-> LimNames, maxMatch |-> LimMatch, maxReplies |-> LimReplies, maxCompleted |-> LimCompleted,
-            maxPerUser |-> LimPerUser, busUid |-> 0, policy |-> AllowAllPolicy, epoch |-> 0]
+            maxPerUser |-> LimPerUser, busUid |-> 0, policy |-> AllowAllPolicy, epoch |-> 0,
+            maxMsgFds |-> 16, maxMsgSize |-> 70000,
+            \* with "act" among the operations the first name has a service file
+            act |-> IF "act" \in Ops THEN <<[n |-> NameOf(1), kind |-> "ok"]>> ELSE <<>>, maxPendingAct |-> 3]
   /\ Init0
 
 NextUnique == UniqueOf(Cardinality(everNames) + 1)
@@ -47,11 +50,13 @@ MCNext ==
            /\ Send(s, TestMsg(ty, d, ser, IF ty \in {2,3} THEN rs ELSE 0, fl), <<>>)
     \/ "close" \in Ops /\ ClientClose(s)
     \/ "hostile" \in Ops /\ Corrupt(s)          \* any byte string that is not a valid message
+    \/ "act" \in Ops /\ \E n \in Names : StartService(s, 2, 0, n, 0)
+    \/ "act" \in Ops /\ \E i \in 1..Len(act.pend) : ChildExit(act.pend[i].n, 1, FALSE) \/ ActTimeout(act.pend[i].n)
     \/ \E order \in [1..Cardinality(NamesOf(queue, s)) -> NamesOf(queue, s)] : Drop(s, order)
     \/ "send" \in Ops /\ \E i \in 1..Len(pend) : ExpirePending(i)
 
 MCSpec == MCInit /\ [][MCNext]_vars
-View == <<cfg, cst, dying, uid, uname, everNames, queue, rules, pend, mon, fdx>>
+View == <<cfg, cst, dying, uid, uname, everNames, queue, rules, pend, mon, fdx, act>>
 
 \* ------------------------------------------------------------------ invariants
 TypeOK ==
@@ -80,7 +85,8 @@ PendWellFormed == \A i \in 1..Len(pend) : cst[pend[i].caller] = "active" /\ pend
 
 \* C05 / C07: what one step stages
 ClientMsgs(o) == {i \in 1..Len(o) : o[i].m.org # 0}
-AtMostOneCopy == \A i, j \in ClientMsgs(out) : i # j => out[i].to # out[j].to
+\* (one action routes one client message -- except the release of held messages when their service appears)
+AtMostOneCopy == "act" \in Ops \/ \A i, j \in ClientMsgs(out) : i # j => out[i].to # out[j].to
 \* a client's unicast message goes to the connection that owned the name when the step began... (checked as an
 \* action property below); here: it never goes to a connection that neither is active nor a monitor
 OnlyLiveRecipients == \A i \in 1..Len(out) : out[i].to \in Slot
@@ -91,6 +97,9 @@ ErrorXorDelivery == \A i \in ClientMsgs(out) : out[i].m.dst # <<>> /\ out[i].m.t
 UnicastToOwnerOnly ==
   [][\A i \in ClientMsgs(out') : LET m == out'[i].m IN m.dst # <<>> =>
          \/ out'[i].to = Resolve(queue, m.dst)
+         \* (a held message: to the connection that has just taken the name it was waiting for)
+         \/ /\ \E k \in 1..Len(act.pend) : act.pend[k].n = m.dst
+            /\ m.dst \in DOMAIN queue' /\ out'[i].to = queue'[m.dst][1].s
          \/ cst[out'[i].to] = "monitor"
          \/ \E k \in 1..Len(rules[out'[i].to]) : rules[out'[i].to][k].eav]_vars
 \* broadcasts only reach holders of a matching rule (C07)
@@ -125,7 +134,9 @@ OwnerChangeSignalled ==
 UniqueNeverReused == [][\A s \in Slot : uname'[s] # uname[s] /\ uname'[s] # <<>> => uname'[s] \notin everNames]_vars
 \* a refused request changes nothing (C13): when the reply is LimitsExceeded the registry and rules are untouched
 RefusalChangesNothing ==
-  [][(\E i \in 1..Len(out') : out'[i].m.err = E_LimitsExceeded) => queue' = queue /\ rules' = rules /\ cst' = cst /\ pend' = pend]_vars
+  \* (a held message released when its service appears may be refused on its own; that is not the acting request)
+  [][((\E i \in 1..Len(out') : out'[i].m.err = E_LimitsExceeded) /\ act'.pend = act.pend)
+       => queue' = queue /\ rules' = rules /\ cst' = cst /\ pend' = pend /\ act' = act]_vars
 \* ---- C10: what a misbehaving client can cause
 \* the step in which the bus gives up on a connection (invalid bytes, a monitor or unregistered client speaking)
 \* changes nothing but that connection's fate; only monitors may be shown the offending (valid) message
@@ -139,4 +150,45 @@ DropOnlyBusSpeaks ==
         \A i \in 1..Len(out') : out'[i].m.org = 0 /\ out'[i].m.snd = BUS]_vars
 \* whatever the others did, a registered live client's call to the bus is served
 AlwaysServed == \A s \in Slot : cst[s] = "active" /\ ~dying[s] => ENABLED Query(s, 1, 0, "ping", <<>>)
+\* ---- C19: activation
+ActBound == \A n \in DOMAIN act.spawned : act.spawned[n] <= 2
+PendingNames == {act.pend[i].n : i \in 1..Len(act.pend)}
+EntriesOf(n) == act.pend[PIdx(act.pend, n)].entries
+\* a start is only ever under way for a name nobody owns, once per name, within the limit on waiting requests
+PendingOnlyForUnowned == \A i \in 1..Len(act.pend) : act.pend[i].n \notin DOMAIN queue /\ act.pend[i].entries # <<>>
+OnePendingPerName == \A i, j \in 1..Len(act.pend) : i # j => act.pend[i].n # act.pend[j].n
+WaitersWithinLimit == SumEntries(act.pend, 1) <= cfg.maxPendingAct
+\* a process is started only when no start of that name is under way, and then exactly one
+SpawnAtMostOncePerActivation ==
+  [][\A n \in Names : SpawnCount(n)' # SpawnCount(n) =>
+        /\ n \notin PendingNames /\ n \in PendingNames' /\ n \notin DOMAIN queue
+        /\ SpawnCount(n)' = SpawnCount(n) + 1]_vars
+\* the service took its name: each held message of a sender that is still there goes to the new owner exactly
+\* once, in the order of arrival (allow-all policy: nothing is refused), and each StartServiceByName caller is told 1
+HeldOf(n) == SelectSeq(EntriesOf(n), LAMBDA e : e.auto /\ cst[e.s] = "active" /\ uname[e.s] = e.un /\ ~dying[e.s])
+HeldReleasedOnceInOrder ==
+  [][\A n \in PendingNames : (n \notin PendingNames' /\ n \in DOMAIN queue') =>
+        LET w == queue'[n][1].s
+            got == SelectSeq(out', LAMBDA x : x.to = w /\ x.m.org # 0 /\ x.m.dst = n)
+            held == HeldOf(n) IN
+        \* (senders that are closing may or may not still be served; the gate may refuse a message -- e.g. a call
+        \* whose serial is already awaited from the same peer -- and then its sender gets the error instead)
+        /\ Len(got) <= Len(SelectSeq(EntriesOf(n), LAMBDA e : e.auto))
+        /\ \A i \in 1..Len(held) :
+              \/ \E j \in 1..Len(got) : got[j].m = held[i].m
+              \/ \E j \in 1..Len(out') : out'[j].to = held[i].s /\ out'[j].m.ty = 3 /\ out'[j].m.rs = held[i].m.ser /\ out'[j].m.org = 0
+        /\ \A i, j \in 1..Len(got) : i < j =>
+              \E a, b \in 1..Len(EntriesOf(n)) : a < b /\ EntriesOf(n)[a].m = got[i].m /\ EntriesOf(n)[b].m = got[j].m
+        /\ \A k \in 1..Len(EntriesOf(n)) : LET e == EntriesOf(n)[k] IN
+              (~e.auto /\ cst[e.s] = "active" /\ uname[e.s] = e.un /\ ~dying[e.s]) =>
+                 \E j \in 1..Len(out') : out'[j].to = e.s /\ out'[j].m.ty = 2 /\ out'[j].m.rs = e.m.ser
+                                           /\ out'[j].m.args = <<AU32(1)>>]_vars
+\* the start failed: every waiter that is still there gets exactly one error for its message, nobody else hears of it
+FailureReachesEveryWaiter ==
+  [][\A n \in PendingNames : (n \notin PendingNames' /\ n \notin DOMAIN queue') =>
+        /\ \A k \in 1..Len(EntriesOf(n)) : LET e == EntriesOf(n)[k] IN
+              (cst[e.s] = "active" /\ uname[e.s] = e.un /\ ~dying[e.s]) =>
+                 Cardinality({j \in 1..Len(out') : out'[j].to = e.s /\ out'[j].m.ty = 3 /\ out'[j].m.rs = e.m.ser}) >= 1
+        /\ \A j \in 1..Len(out') : out'[j].m.ty = 3 /\ out'[j].m.org = 0
+        /\ Len(out') <= Len(EntriesOf(n))]_vars
 =============================================================================
